@@ -129,6 +129,7 @@ func init() {
 		Assumptions:    []string{"data races are not decided here (DESIGN.md section 10)"},
 		RequiredProbes: []string{"close_races", "racing_calls_got_errclosed", "protected_entries_checked"},
 		QuickS:         45, ThoroughS: 600,
+		Workers: 12, RaceWorkers: 4,
 	}
 	propSpecs["C09"] = &PropSpec{
 		ID: "C09",
